@@ -253,6 +253,14 @@ def EofQuery (gam : K → K → K) (A1 A2 : V3 K) (nn nx ny nz : K) (q : Query K
 def otherBasisToA12? (A1 A2 B1 B2 : V3 K) (a : K × K) : Option (K × K) :=
   posToA12? A1 A2 (a12ToPos B1 B2 a)
 
+/-- queries given TOGETHER WITH the `a1vect=` / `a2vect=` keywords (Cartesian `B1`, `B2`): fractional coordinates are
+    relative to `B1, B2`; a Cartesian position is absolute (the keywords do not matter); plotting coordinates take
+    `B1` as their default x axis.  All three are reduced with the surface's OWN shift vectors. -/
+def Query.toA12Other? (A1 A2 B1 B2 : V3 K) (nn nx ny nz : K) : Query K → Option (K × K)
+  | .a12 a => otherBasisToA12? A1 A2 B1 B2 a
+  | .pos p => posToA12? A1 A2 p
+  | .xy q xv => (xyToPosApi A1 A2 nn nx ny nz (some (xv.getD B1)) q).bind (posToA12? A1 A2)
+
 /-! data-model record: energies are written divided by the unit factor `u` and read back times it -/
 
 structure GsfRecord (K : Type) where
